@@ -400,7 +400,14 @@ impl Envelope {
     /// this particular recipient.
     #[cfg(feature = "encrypt")]
     fn first_plaintext_in_sealed_messages(sealed_messages: &[SealedMessage], private_key: &dyn Decrypter) -> Result<Vec<u8>> {
+        let scheme = private_key.encapsulation_private_key().encapsulation_scheme();
         for sealed_message in sealed_messages {
+            // A message sealed under another encapsulation scheme is for
+            // some other recipient. (Trying it anyway is not harmless: an
+            // ML-KEM key panics on a ciphertext of a different ML-KEM level.)
+            if sealed_message.encapsulation_scheme() != scheme {
+                continue;
+            }
             let a = sealed_message.decrypt(private_key).ok();
             if let Some(plaintext) = a {
                 return Ok(plaintext);
